@@ -29,6 +29,7 @@ REWRITES = {
     "services/smtp/storage.go": [("s.Set(", "VerifSet(s, ", 2)],
     "services/ldap/storage.go": [("s.Set(", "VerifSet(s, ", 2)],
     "listener/agent/storage.go": [("s.Set(", "VerifSet(s, ", 1)],
+    "listener/agent/agent.go": [("libdisco.Listen(", "VerifListen(", 1)],
     "listener/canary/canary_linux.go": [
         ("syscall.EpollCreate1(", "VerifSys.EpollCreate1(", 1),
         ("syscall.EpollCtl(", "VerifSys.EpollCtl(", 1),
@@ -56,6 +57,7 @@ SEAMS = [
     "services/smtp/zz_verif_crash.go",
     "services/ldap/zz_verif_crash.go",
     "listener/agent/zz_verif_crash.go",
+    "listener/agent/zz_verif_seam.go",
 ]
 
 class AnchorError(Exception):
